@@ -262,6 +262,14 @@ TABLE["C16"][2].extend([
    ("tree_rg_topological", "C16_tree_topological", "partitions of a tree-shaped graph refer to later regions only (acyclic)"),
 ])
 TABLE["C16"] = (TABLE["C16"][0], TABLE["C16"][1] + ["RGTree"], TABLE["C16"][2])
+TABLE["C05"][2].extend([
+   ("differentiate_exec_den", "C05_differentiate_executable", "EXECUTABLE level: for every well-formed circuit on which differentiate_m 1 (model of cirkit.symbolic.functional.differentiate with its per-layer rules, incl. PolynomialDifferential and the non-commutative Kronecker positions) returns, the copy of node i keeps its value and block (i,v) evaluates to the TANGENT of the dual-number (forward-mode) evaluation of node i w.r.t. variable v, whose primal part is the ordinary denotation; definedness is preserved"),
+   ("differentiate_exec_den_outputs", "C05_differentiate_executable_outputs", "hence the outputs are, per output o of c: the derivative w.r.t. each variable of scope(o) in increasing order, then the value itself"),
+   ("differentiate_exec_den_k", "C05_differentiate_executable_order_k", "any order k: block (i,v) is the k-th pure partial derivative (k-jet seed at the polynomial inputs over v)"),
+   ("differentiate_order_succ", "C05_order_successor", "block_{n+1}(i,v) is the derivative w.r.t. v of block_n(i,v)"),
+   ("dden_primal", "C05_dual_primal_is_denotation", "the primal part of the dual-number evaluation is the executable denotation"),
+])
+TABLE["C05"] = (TABLE["C05"][0], TABLE["C05"][1] + ["Scalar", "Tensor", "Pexpr", "Exec", "Ops", "Hom", "DiffStruct", "LinkDiff"], TABLE["C05"][2])
 
 if __name__ == "__main__":
     for pid in (sys.argv[1:] or TABLE):
